@@ -329,8 +329,9 @@ Definition ps_extract (style : Z) (f : bytes) : result (option bytes) :=
   end.
 
 (* ---- the well-formedness domain of the PowerShell laws (decidable): the style is known, the signer's scan neither fails
-   nor panics, an existing block is preceded by exactly CR LF (what the signer strips), and for an unsigned script the
-   last line followed by CR LF is not itself the begin marker *)
+   nor panics, an existing block is preceded by exactly CR LF (what the signer strips), for an unsigned script the
+   last line followed by CR LF is not itself the begin marker, and the lines are exactly the file (a UTF-16 file whose very
+   last byte is a line feed gets a zero byte appended by readLine: outside the domain) *)
 Fixpoint dom_scan (first crlf : bytes) (ok : bool) (saved : bytes) (ls : list bytes) : bool :=
   match ls with
   | [] => false
@@ -348,6 +349,7 @@ Definition ps_dom (style : Z) (f : bytes) : bool :=
       let is16 := ps_is16 f in
       let '(ls, ok) := ps_lines is16 f in
       dom_scan (ps_marker is16 (ps_first_of st en)) (ps_marker is16 [13; 10]) ok [] ls
+      && (zlen (concat ls) =? zlen f)
   end.
 Definition ps_embed_wf (style : Z) (f blob : bytes) : result bytes :=
   if ps_dom style f && all_bytes blob then ps_embed style f blob else Err E_DOMAIN.
@@ -367,7 +369,7 @@ Definition spec_style (s : Z) : option (bytes * bytes) :=
 Definition spec_crlf : bytes := [13; 10].
 Definition widen (l : bytes) : bytes := flat_map (fun b => [b; 0]) l.
 Definition spec_bom16 (f : bytes) : bool :=
-  match f with 255 :: 254 :: _ => true | _ => false end.
+  match f with b0 :: b1 :: _ => (b0 =? 255) && (b1 =? 254) | _ => false end.
 Definition spec_w (is16 : bool) (l : bytes) : bytes := if is16 then widen l else l.
 Definition spec_begin_line (st en : bytes) : bytes := st ++ spec_begin ++ en ++ spec_crlf.
 Definition spec_end_line (st en : bytes) : bytes := st ++ spec_end ++ en ++ spec_crlf.
